@@ -30,6 +30,8 @@ pub enum QOp {
     /// flush() on a live handle; the outcome is what the wrapped sink would answer
     /// if it were (wrongly) invoked on the caller's thread during that call
     Flush(u16, StepOut),
+    /// `format!("{:?}", handle)` on a live handle: an observer, must not change anything
+    DebugFmt(u16),
 }
 
 #[derive(Serialize, Deserialize, Clone, Debug)]
@@ -129,6 +131,7 @@ enum Cmd {
     DropUnwinding(usize),
     Stats(usize),
     Flush(usize),
+    DebugFmt(usize),
     Quit,
 }
 
@@ -227,9 +230,18 @@ impl Actor {
                 let mut handles: Vec<Option<QueuingMetricSink>> = vec![Some(first)];
                 while let Ok(cmd) = crx.recv() {
                     let reply = match cmd {
-                        Cmd::Emit(h, m) => match util::catch(|| handles[h].as_ref().unwrap().emit(&m)) {
+                        Cmd::Emit(h, m) => match util::catch(|| {
+                            gate::IN_CALLER_EMIT.with(|f| f.set(true));
+                            let r = handles[h].as_ref().unwrap().emit(&m);
+                            gate::IN_CALLER_EMIT.with(|f| f.set(false));
+                            r
+                        }) {
                             Ok(Ok(n)) => Reply::Emit(Ok(n)),
                             Ok(Err(e)) => Reply::Emit(Err(format!("{:?}/{}", e.kind(), e))),
+                            Err(p) => Reply::Panicked(p),
+                        },
+                        Cmd::DebugFmt(h) => match util::catch(|| format!("{:?}", handles[h].as_ref().unwrap()).len()) {
+                            Ok(_) => Reply::Done,
                             Err(p) => Reply::Panicked(p),
                         },
                         Cmd::Clone(h) => match util::catch(|| handles[h].as_ref().unwrap().clone()) {
@@ -658,6 +670,38 @@ pub fn run_case_focus(case: &QueueCase, ctx: &Ctx, focus: Option<QRule>) -> Run 
                                     case.cap,
                                     queue.len()
                                 );
+                            } else if room_known.is_none() && any_panic {
+                                // zero-capacity queue, nothing in flight, after a panic: the (replaced) worker must
+                                // get back to waiting for the next entry, so an emit succeeds eventually
+                                // ("... and the sink keeps accepting metrics", C11)
+                                let deadline = std::time::Instant::now() + w;
+                                let mut taken = false;
+                                while std::time::Instant::now() < deadline {
+                                    std::thread::sleep(Duration::from_millis(2));
+                                    match actor.call(Cmd::Emit(h, m.clone()), w) {
+                                        Ok(Reply::Emit(Ok(_))) => {
+                                            taken = true;
+                                            break;
+                                        }
+                                        Ok(Reply::Emit(Err(_))) => {
+                                            st.emits_refused += 1;
+                                        }
+                                        _ => break,
+                                    }
+                                }
+                                if taken {
+                                    accepted += 1;
+                                    st.emits_ok += 1;
+                                    queue.push_back(m);
+                                } else {
+                                    find!(
+                                        [QRule::Panics],
+                                        oi,
+                                        "after a panic of the wrapped sink a zero-capacity queuing sink with nothing in flight refused every emit for {:?}: the sink no longer accepts metrics",
+                                        w
+                                    );
+                                    fatal = true;
+                                }
                             }
                         }
                         Ok(Reply::Panicked(p)) => {
@@ -680,6 +724,18 @@ pub fn run_case_focus(case: &QueueCase, ctx: &Ctx, focus: Option<QRule>) -> Run 
                             fatal = true;
                         }
                     }
+                    {
+                        let n = gate.lock().stats_in_emit;
+                        if n > 0 && !fatal {
+                            find!(
+                                [QRule::Isolation],
+                                oi,
+                                "emit called into the wrapped sink (stats()) on the caller's thread {} time(s): emit must never run the wrapped sink on the caller's thread",
+                                n
+                            );
+                            fatal = true;
+                        }
+                    }
                     settle!(oi);
                     check_counters!(oi);
                 }
@@ -694,6 +750,24 @@ pub fn run_case_focus(case: &QueueCase, ctx: &Ctx, focus: Option<QRule>) -> Run 
                         }
                         other => {
                             find!([QRule::Panic, QRule::Deliver], oi, "clone failed: {:?}", other);
+                            fatal = true;
+                        }
+                    }
+                    settle!(oi);
+                    check_counters!(oi);
+                }
+            }
+            QOp::DebugFmt(sel) => {
+                if !live.is_empty() {
+                    let h = live[util::pick_idx(sel, live.len())];
+                    match actor.call(Cmd::DebugFmt(h), w) {
+                        Ok(Reply::Done) => {}
+                        Ok(Reply::Panicked(p)) => {
+                            find!([QRule::Panic], oi, "Debug-formatting a handle panicked: {}", p);
+                            fatal = true;
+                        }
+                        other => {
+                            find!([QRule::Isolation], oi, "Debug-formatting a handle did not return: {:?}", other);
                             fatal = true;
                         }
                     }
@@ -1040,6 +1114,7 @@ pub fn queue_case(g: QGen) -> BoxedStrategy<QueueCase> {
         g.clone_w => any::<u16>().prop_map(QOp::Clone),
         g.drop_w => prop_oneof![4 => any::<u16>().prop_map(QOp::Drop), 1 => any::<u16>().prop_map(QOp::DropUnwinding)],
         g.step_w => step_out(g.err_w, g.panic_w).prop_map(QOp::Step),
+        1 => any::<u16>().prop_map(QOp::DebugFmt),
         g.flush_w => (any::<u16>(), prop_oneof![3 => Just(StepOut::Ok), 3 => (0u8..13).prop_map(StepOut::Err), 2 => Just(StepOut::Panic)]).prop_map(|(h, o)| QOp::Flush(h, o)),
     ];
     (cap_strategy(), prop::bool::weighted(g.handler_p), any::<bool>(), prop::collection::vec(op, 0..=g.max_ops))
